@@ -49,6 +49,7 @@ class Inj(object):
 
     def __init__(self):
         self.resolvers = {}     # (type, field) -> callable
+        self.default_resolvers = {}   # type -> callable given to ObjectType(default_resolver=...)
         self.n = 0
 
     def fresh(self, prefix):
@@ -79,12 +80,14 @@ def new_object(ir, inj, name=None, fields=None):
 
 
 # -- names -------------------------------------------------------------------
-BAD_NAMES = ["bad-name", "9starts_with_digit", "__reserved", "with space", "dollar$"]
+# names are /[_A-Za-z][_0-9A-Za-z]*/: letters and digits of other scripts are not name characters
+BAD_NAMES = ["bad-name", "9starts_with_digit", "__reserved", "with space", "dollar$", "caf\u00e9", "x\u03b1",
+             "us\u0435r", "field\u0661", "n\u540d", "\u00e9tat"]
 
 
 @op
 def invalid_type_name(rng, ir, inj):
-    name = rng.choice(["Bad-Type", "9Type", "__Reserved", "Sp ace"]) + str(inj.fresh(""))
+    name = rng.choice(["Bad-Type", "9Type", "__Reserved", "Sp ace", "Caf\u00e9", "T\u0443pe", "Type\u0661"]) + str(inj.fresh(""))
     kind = rng.choice(["object", "enum", "input", "interface", "union", "scalar"])
     if kind == "object":
         t = new_object(ir, inj, name)
@@ -477,6 +480,24 @@ def shared_resolver_fits_only_one_field(rng, ir, inj):
     return fm
 
 
+@op
+def type_default_resolver_does_not_fit(rng, ir, inj):
+    """The default resolver handed to ObjectType(default_resolver=...) serves every field of the type
+    that has no resolver of its own: it has to accept their arguments."""
+    t = new_object(ir, inj, fields=[SField(inj.fresh("zzByDefault"), named("Int"), [SInput("x", nn(named("Int")))])])
+    attach(ir, inj, t)
+    inj.default_resolvers[t.name] = rng.choice([lambda root, ctx, info: 1, lambda root, ctx: 1])
+    return t.fields[0].name
+
+
+@benign
+def fitting_type_default_resolver(rng, ir, inj):
+    t = new_object(ir, inj, fields=[SField(inj.fresh("zzByDefaultOk"), named("Int"), [SInput("x", nn(named("Int")))])])
+    attach(ir, inj, t)
+    inj.default_resolvers[t.name] = rng.choice([lambda root, ctx, info, **kw: 1, lambda root, ctx, info, x: 1])
+    return None
+
+
 @benign
 def permissive_resolvers(rng, ir, inj):
     f = _resolver_field(ir, inj, [SInput("a", named("Int")), SInput("b", nn(named("Int"))), SInput("c", named("Int"), 3)])
@@ -498,7 +519,8 @@ def build(ir, inj, order_rng=None):
     names = list(ir.types)
     if order_rng is not None:
         order_rng.shuffle(names)
-    return S.build_code_schema(ir, resolver_for=lambda t, f: inj.resolvers.get((t, f)), order=names)[0]
+    return S.build_code_schema(ir, resolver_for=lambda t, f: inj.resolvers.get((t, f)),
+                               default_resolver_for=lambda t: inj.default_resolvers.get(t), order=names)[0]
 
 
 def outcome_of(schema):
@@ -577,6 +599,15 @@ def run(ctx):
                     break
                 for name, needle in needles:
                     ctx.count("injected:" + name)
+                # a copy of the schema gets the same verdict
+                try:
+                    cout = outcome_of(schema.clone())
+                    ctx.count("clones_validated")
+                    if cout[0] != out[0] or sorted(cout[1]) != sorted(out[1]):
+                        ctx.violation("clone-verdict-differs", witness, "original %r clone %r" % (out[1][:3], cout[1][:3]))
+                        break
+                except Exception as e:
+                    ctx.observe("clone() of an invalid schema raised %s" % type(e).__name__)
                 if out[0] == "valid":
                     ctx.violation("violation-accepted:%s" % needles[0][0], witness, "no error at all")
                     break
